@@ -106,6 +106,24 @@ def compare(pred, obs, logging):
     return None
 
 
+SWAP = {'dict': 'obj', 'odict': 'obj', 'obj': 'dict', 'list': 'tuple', 'tuple': 'list'}
+
+
+def decoy(cells):
+    """the same heap with the classes of all cells but the first swapped (dict <-> attribute object,
+    list <-> tuple); None when a cell cannot take the other class (non-string keys for an object)"""
+    out = []
+    for i, c in enumerate(cells):
+        cls = c['cls'] if i == 0 else SWAP.get(c['cls'], c['cls'])
+        if cls == 'obj' and c['cls'] != 'obj' and any(k.get('k') != 'str' or not k['s'].isidentifier() for k, _ in c['items']):
+            cls = c['cls']
+        out.append({'cls': cls, 'items': c['items']})
+    try:
+        return codec.Heap(out, codec.PLAIN)
+    except Exception:
+        return None
+
+
 import collections
 PointKey = collections.namedtuple('PointKey', 'x y')
 
@@ -126,6 +144,15 @@ def replay_case(st, out):
                 spec = mk()
             except Exception as e:   # spelling not constructible (machinery, not glom)
                 raise vlib.MachineryError('cannot build %s for %s: %r' % (name, st['steps'], e))
+            if not logging and name in ('Path', 'T') and isinstance(st['root'], dict) and st['root'].get('k') == 'ref':
+                # the very same spec object is first used on a decoy: a target whose root has the same class
+                # but whose inner levels are of other kinds -- nothing of that use may stick to the spec object
+                dheap = decoy(st['heap'])
+                if dheap is not None:
+                    try:
+                        glom.glom(dheap.val(st['root']), spec)
+                    except Exception:
+                        pass
             obs = observe(heap, st['root'], spec)
             why = compare(pred, obs, logging)
             out['n'] += 1
